@@ -76,6 +76,10 @@ func runC18(c *core.Ctx) {
 	c.Rule("R18.3", "relay goroutine joined before close (shared with R16.4)")
 	c.Rule("R18.5", "only the drip buffer is forwarded, or other data when nothing is pending")
 	c.Rule("R18.4", "drip buffer / safekeeper buffer / validator hashing context are one pwr.BlockSize block")
+	c.Rule("R05.1", "healthy verdict only under index-in-range and strong-hash equality (shared with C05)")
+	if kinds := woundKinds(c.P); len(kinds) >= 4 {
+		ruleHealthyVerdict(c, kinds)
+	}
 
 	nfwd := 0
 	var dripFns []*ssa.Function
